@@ -55,6 +55,10 @@ fn source_for(module: &str) -> String {
     s
 }
 
+pub fn source_for_module(module: &str) -> String {
+    source_for(module)
+}
+
 pub fn build_initial() -> Result<String, String> {
     let sc = Scratch::new("c18", &[("validators/va.ak".to_string(), source_for("va")), ("validators/vb.ak".to_string(), source_for("vb"))]);
     sc.build(silent())
